@@ -19,6 +19,10 @@ T_DELIMITED = (sql.Parenthesis, sql.SquareBrackets, sql.Case, sql.If,
 def _delimiters(tlist):
     """Returns the opening and closing token of a delimited group."""
     if isinstance(tlist, T_DELIMITED) and tlist.tokens:
+        # comments may have been attached behind the closing token
+        for token in reversed(tlist.tokens):
+            if token.match(*tlist.M_CLOSE):
+                return tlist.tokens[0], token
         return tlist.tokens[0], tlist.tokens[-1]
     return ()
 
